@@ -358,6 +358,127 @@ pub(crate) async fn scenario(epmd: &net::EpmdTable, name: &str, own_flags: u64, 
     }
 }
 
+/// One connection object, two connections: what the first peer left unfinished (a fragmented message cut off by the
+/// close, cache entries) must not leak into what the second peer - a fresh node that starts its own numbering and its
+/// own cache - sends over the second connection.
+async fn second_connection(ctx: &Ctx, rng: &mut Rng, epmd: &net::EpmdTable, h: usize) {
+    ctx.beat(&format!("second-connection/{}", h));
+    let name = format!("sc{}", h);
+    let own = DistributionFlags::default().as_u64() | FLAG_DIST_HDR_ATOM_CACHE | FLAG_FRAGMENTS;
+    let cfg = ConnectionConfig::new("rust@127.0.0.1", format!("{}@127.0.0.1", name), "cookie").with_epmd_host("127.0.0.1").with_flags(DistributionFlags::new(own)).with_timeout(Duration::from_millis(1500));
+    let mut conn = Connection::new(cfg);
+    let seq: u64 = *rng.pick(&[1u64, 2, 0x77]);
+    let fragments_of = |payload: &Val, refs: &[crate::refmodel::dist::AtomRef], nfrag: usize| -> Vec<Vec<u8>> {
+        let control = control_of_kind(2, 5_000_000 + h as u32).0;
+        let msg = write_message(refs, &[&control, payload]);
+        let body = msg[2..].to_vec();
+        // the first fragment carries the whole header part; cut behind it
+        let header_len = body.len().min(1 + if refs.is_empty() { 0 } else { refs.len() / 2 + 1 + refs.iter().map(|r| 1 + if r.new_entry { 1 + r.atom.len() } else { 0 }).sum::<usize>() });
+        let mut frames = Vec::new();
+        let mut prev = 0usize;
+        for f in 0..nfrag {
+            let end = if f + 1 == nfrag { body.len() } else { header_len + (body.len() - header_len) * (f + 1) / nfrag };
+            let mut b = vec![131u8, if f == 0 { 69 } else { 70 }];
+            b.extend_from_slice(&seq.to_be_bytes());
+            b.extend_from_slice(&((nfrag - f) as u64).to_be_bytes());
+            b.extend_from_slice(&body[prev..end]);
+            frames.push(b);
+            prev = end;
+        }
+        frames
+    };
+    let r = |a: &str, i: u8, new_entry: bool| crate::refmodel::dist::AtomRef { atom: a.to_string(), segment: 0, internal: i, new_entry };
+    // first life: a complete message that fills cache slots 0 and 1, then a fragmented one of which only the beginning arrives
+    let first_payload = Val::Tuple(vec![Val::atom("old_a"), Val::atom("old_b"), Val::int(1)]);
+    let unfinished_payload = Val::Tuple(vec![Val::atom("old_a"), Val::binary(&vec![0x11; 300])]);
+    let nfrag_old = 2 + rng.below(3);
+    let mut first_stream: Vec<u8> = Vec::new();
+    first_stream.extend(frame(&write_message(&[r("old_a", 0, true), r("old_b", 1, true)], &[&control_of_kind(2, 1).0, &first_payload])));
+    let old_frames = fragments_of(&unfinished_payload, &[r("old_a", 0, false)], nfrag_old);
+    // (every fourth time nothing is left unfinished: the control for this scenario's own fragmenting)
+    let sent_old = if h % 4 == 3 { 0 } else { 1 + rng.below(nfrag_old - 1) };
+    for f in old_frames.iter().take(sent_old) {
+        first_stream.extend(frame(f));
+    }
+    let pl = net::listen_as(epmd, &name).await;
+    let peer1 = tokio::spawn(async move {
+        let Ok(mut peer) = pl.accept("cookie", PEER_BASE_FLAGS | FLAG_DIST_HDR_ATOM_CACHE | FLAG_FRAGMENTS, 0x4242_4244).await else { return };
+        if peer.handshake().await.is_err() {
+            return;
+        }
+        let _ = peer.sock_write(&first_stream).await;
+        tokio::time::sleep(Duration::from_millis(150)).await;
+    });
+    if let Err(e) = conn.connect().await {
+        ctx.inconclusive(&format!("first handshake failed: {}", e));
+        peer1.abort();
+        return;
+    }
+    let first_ok = matches!(conn.receive_message().await, Ok((_, Some(p))) if val_of(&p).same(&first_payload));
+    // the rest of the first life: the peer goes away in the middle of the fragmented message
+    let _ = tokio::time::timeout(Duration::from_secs(3), conn.receive_message()).await;
+    let _ = conn.close().await;
+    peer1.abort();
+    if !first_ok {
+        ctx.inconclusive("the first connection did not deliver its complete message");
+        return;
+    }
+    // second life: a fresh peer; same sequence id, same cache slots, other atoms, another fragment count
+    let nfrag_new = 2 + rng.below(3);
+    let new_payload = Val::Tuple(vec![Val::atom("new_a"), Val::atom("new_b"), Val::binary(&vec![0x22; 200 + rng.below(200)])]);
+    let new_frames = fragments_of(&new_payload, &[r("new_a", 0, true), r("new_b", 1, true)], nfrag_new);
+    let plain_payload = Val::Tuple(vec![Val::atom("new_b"), Val::atom("new_a")]);
+    let mut second_stream: Vec<u8> = Vec::new();
+    for f in &new_frames {
+        second_stream.extend(frame(f));
+    }
+    second_stream.extend(frame(&write_message(&[r("new_b", 1, false), r("new_a", 0, false)], &[&control_of_kind(2, 2).0, &plain_payload])));
+    let pl = net::listen_as(epmd, &name).await;
+    let peer2 = tokio::spawn(async move {
+        let Ok(mut peer) = pl.accept("cookie", PEER_BASE_FLAGS | FLAG_DIST_HDR_ATOM_CACHE | FLAG_FRAGMENTS, 0x4242_4245).await else { return };
+        if peer.handshake().await.is_err() {
+            return;
+        }
+        let _ = peer.sock_write(&second_stream).await;
+        tokio::time::sleep(Duration::from_millis(400)).await;
+    });
+    if let Err(e) = conn.connect().await {
+        ctx.viol("C06:second-connection:handshake-failed", "a connection object that had been connected and closed could not connect again", json!({"history": h, "error": e.to_string()}));
+        peer2.abort();
+        return;
+    }
+    let mut got: Vec<String> = Vec::new();
+    let mut ok = true;
+    for want in [&new_payload, &plain_payload] {
+        match tokio::time::timeout(Duration::from_secs(3), conn.receive_message()).await {
+            Ok(Ok((_, Some(p)))) if val_of(&p).same(want) => got.push("as sent".into()),
+            Ok(Ok((_, p))) => {
+                ok = false;
+                got.push(format!("another message: {}", p.as_ref().map(|x| val_of(x).show().chars().take(80).collect::<String>()).unwrap_or_default()));
+            }
+            Ok(Err(e)) => {
+                ok = false;
+                got.push(format!("error: {}", e));
+            }
+            Err(_) => {
+                ok = false;
+                got.push("nothing within 3 s".into());
+                break;
+            }
+        }
+    }
+    peer2.abort();
+    ctx.eval(2);
+    ctx.class(&format!("second-connection/{}of{}-fragments-left-behind/{}-fragments-now", sent_old, nfrag_old, nfrag_new));
+    if !ok {
+        ctx.viol(
+            "C06:second-connection:what-the-first-left-behind-leaks",
+            "messages a fresh peer sent over the second connection of a connection object were not returned as sent (the first connection ended in the middle of a fragmented message under the same sequence id / had filled the same cache slots)",
+            json!({"history": h, "sequence_id": seq, "first_connection": format!("{} of {} fragments arrived before it ended", sent_old, nfrag_old), "second_connection_fragments": nfrag_new, "returned": got}),
+        );
+    }
+}
+
 /// A fragmented message whose fragments arrive slowly: the gaps between them add up to several times the connection's
 /// timeout, bridged by ticks that each arrive well inside it (a live peer that is busy). The message must be delivered.
 /// Judged only when the peer's writes really stayed within the intended spacing.
@@ -620,7 +741,7 @@ async fn read_half_timeline(ctx: &Ctx, seed: u64, id: usize) {
 }
 
 pub fn run(ctx: &Ctx) {
-    ctx.rule("cases = peer histories after a real handshake under three negotiated flag sets (pass-through only; + DIST_HDR_ATOM_CACHE; + FRAGMENTS): every control-message kind, payloads from a few bytes to 70 kB, distribution headers from the atom-cache sender model, legal fragmentations into 1..5 fragments, long-lived connections that learn atoms in more than 256 cache slots over all segments, ticks, and junk frames (random bytes, truncated terms, wrong markers, non-tuples, bad payloads, fragment headers with inconsistent counts) at random positions, also between the fragments of an open sequence and claiming to belong to it (fragment id 0, = count, > count), TCP writes sliced randomly; the sequence of values returned by Connection::receive_message is compared with the sequence of valid messages sent; plus fragmented messages whose fragments arrive further apart than the connection's timeout with ticks in between (judged when the peer's writes kept their spacing); plus slow-peer timelines for Connection::receive_message_from_read_half (ticks, silences longer than the caller's timeout between frames, frames arriving in pieces with short pauses): every call must return the next message; evaluations = messages and junk frames judged; distinct = distinct (flag set, wire form, control kind, junk kind) combinations");
+    ctx.rule("cases = peer histories after a real handshake under three negotiated flag sets (pass-through only; + DIST_HDR_ATOM_CACHE; + FRAGMENTS): every control-message kind, payloads from a few bytes to 70 kB, distribution headers from the atom-cache sender model, legal fragmentations into 1..5 fragments, long-lived connections that learn atoms in more than 256 cache slots over all segments, ticks, and junk frames (random bytes, truncated terms, wrong markers, non-tuples, bad payloads, fragment headers with inconsistent counts) at random positions, also between the fragments of an open sequence and claiming to belong to it (fragment id 0, = count, > count), TCP writes sliced randomly; the sequence of values returned by Connection::receive_message is compared with the sequence of valid messages sent; plus one connection object over two connections (the first ending in the middle of a fragmented message, the second peer re-using sequence ids and cache slots); plus fragmented messages whose fragments arrive further apart than the connection's timeout with ticks in between (judged when the peer's writes kept their spacing); plus slow-peer timelines for Connection::receive_message_from_read_half (ticks, silences longer than the caller's timeout between frames, frames arriving in pieces with short pauses): every call must return the next message; evaluations = messages and junk frames judged; distinct = distinct (flag set, wire form, control kind, junk kind) combinations");
     ctx.assume("a history ends with a pass-through sentinel message; a receive that fails with timeout/EOF ends the history");
     let rt = tokio::runtime::Builder::new_current_thread().enable_all().build().expect("runtime");
     let mut rng = Rng::derive(ctx.seed, 6, 1);
@@ -639,6 +760,9 @@ pub fn run(ctx: &Ctx) {
                     break;
                 }
                 slow_fragments(ctx, &mut srng, epmd, h).await;
+                for k in 0..3 {
+                    second_connection(ctx, &mut srng, epmd, h * 3 + k).await;
+                }
             }
         };
         let main_part = async {
